@@ -164,6 +164,61 @@ def run(tier):
                 rep.finding("class/" + fam, "corruption family %s: expected %s, got %s" % (fam, sorted(codes), a[:80]),
                             {"kind": "read", "config": cfg, "opt": 0, "input_hex": C.hexs(cdocs[i]), "expected": sorted(codes), "observed": a[:300]})
         rep.note_cases(len(cdocs), set(C.sha(d)[:16] for d in cdocs), sample={"doc": cdocs[5][:150].decode("latin-1"), "expected": sorted(exps[5][0]), "family": exps[5][1]})
+        # ---- stray closer after one or more discarded forms of every kind, at top level: UNMATCHED_DELIMITER, never "neither"
+        sdocs, sexps = [], []
+        disc = [b"1", b"a", b":k", b"\"s\"", b"[1 2]", b"{:a 1}", b"#{1}", b"(x)", b"#t 1", b"#t [1]", b"#inst \"x\"", b"#a #b 2", b"\\c", b"nil", b"#_ 1 2"]
+        if cfg in ("clj", "both"):
+            disc += [b"^:m [1]", b"#:p{:a 1}", b"^{:a 1} #t x"]
+        for dform in disc:
+            for closer in (b")", b"]", b"}"):
+                for tail in (b"", b" 5", b" [1]"):
+                    for reps in (1, 2):
+                        sdocs.append((b"#_" + dform + b" ") * reps + closer + tail)
+                        sexps.append("UNMATCHED_DELIMITER")
+        # orphan markers at the end of the input stay errors when the caller supplies an end-of-input value (opt 1)
+        orphans = [b"#foo", b"#foo ", b"#", b"#_", b"#_ ", b"#_ #bar ", b"#a #b", b"#_#_ 1", b"[1 #foo", b"#foo ;c"]
+        if cfg in ("clj", "both"):
+            orphans += [b"^:a", b"^:a ", b"^", b"^{:a 1} ", b"#:p", b"#:p "]
+        for opt in (0, 1):
+            out, cr = K.run_impl(cfg, K.read_lines(orphans, opt))
+            mo, _ = K.run_model(cfg, K.read_lines(orphans, opt))
+            rep.count("orphans-at-eof/%s/opt%d" % (cfg, opt), len(orphans))
+            for d, a, b in zip(orphans, out, mo):
+                if a is None:
+                    continue
+                if a != b:
+                    rep.broken_obligation("correspondence/orphan-at-eof", "model %r vs code %r on %r (opt %d)" % (b, a, d, opt), False)
+                if not a.startswith("err "):
+                    found = True
+                    rep.finding("class/orphan-at-eof", "a marker without its operand at the end of the input was not rejected (opt %d): %r -> %s" % (opt, d, a[:80]),
+                                {"kind": "read", "config": cfg, "opt": opt, "input_hex": C.hexs(d), "expected": ["UNEXPECTED_EOF", "INVALID_SYNTAX", "INVALID_DISCARD", "UNTERMINATED_COLLECTION"], "observed": a[:300]})
+        # identifiers containing '::' are INVALID_SYNTAX wherever the colons sit and however much input follows
+        for pre in (b"", b"a", b"abc", b"abcdefghijklmn", b"abcdefghijklmno", b"abcdefghijklmnop", b"abcdefghijklmnopqrstuvwxyz0123456789"):
+            for kwp in (b"", b":"):
+                for suf in (b"b", b"", b"bcdefghijklmnopqrstuvw"):
+                    tok = kwp + pre + b"::" + suf
+                    if tok.startswith(b":::") or tok in (b"::", b":::"):
+                        continue
+                    for ctx in (b"%s", b"[%s 1 2]", b"[%s 1 2 3 4 5 6 7 8 9 10 11 12]", b"{%s \"some string value\"}", b"#%s [1 2 3 4 5 6 7 8 9]"):
+                        if ctx.startswith(b"#") and tok.startswith(b":"):
+                            continue
+                        sdocs.append(ctx.replace(b"%s", tok))
+                        sexps.append("INVALID_SYNTAX")
+        impl, model, diffs, crashes, mcr = K.correspond(cfg, K.read_lines(sdocs))
+        rep.count("stray-closer-and-colons/" + cfg, len(sdocs))
+        for i in diffs[:5]:
+            rep.broken_obligation("correspondence/stray-closer-and-colons", "model %r vs code %r on %r" % ((model[i] or "")[:150], (impl[i] or "")[:150], sdocs[i]), False)
+        for i, a in enumerate(impl):
+            if a is None:
+                continue
+            got = a.split(" ")[1] if a.startswith("err ") else a.split(" ")[0]
+            if got != sexps[i]:
+                found = True
+                rep.finding("class/" + ("stray-closer-after-discard" if sexps[i] == "UNMATCHED_DELIMITER" else "double-colon"),
+                            "expected %s, got %s for %r" % (sexps[i], a[:80], sdocs[i]),
+                            {"kind": "read", "config": cfg, "opt": 0, "input_hex": C.hexs(sdocs[i]), "expected": [sexps[i]], "observed": a[:300]})
+        rep.note_cases(len(sdocs), set(sdocs))
+
         # ---- number-like tokens: every combination of sign / integer part / fraction / exponent / suffix pieces;
         #      a token is a number exactly when it matches the EDN number grammar, otherwise INVALID_NUMBER
         if cfg in ("core", "exp"):
